@@ -129,7 +129,8 @@ def gen(tier, rng):
         cases.append("npdbg" + c[2:])
     for e in ENTRIES:
         for u in SCALE_UNITS.get(e, ["a"]):
-            for n in ([10000, 100000] if tier == "quick" else [10000, 100000, 1000000]):
+            # (the twelve typed-header parsers of `hparse` in the unoptimised build need more than the 8 s allowed per case on 1 MB)
+            for n in ([10000, 100000] if tier == "quick" or e in ("hparse", "sendmailerr") else [10000, 100000, 1000000]):
                 x = (u.encode() * (n // max(1, len(u.encode())) + 1))[:n]
                 cases.append(f"npdbg\t{e}\t{x.hex()}")
     mx = {"quick": 1 << 20, "search": 1 << 21, "thorough": 1 << 22}[tier]
